@@ -100,6 +100,11 @@ func mkStmt(m *big.Int, sign int, factor uint, delta *big.Int, limit int64) *c13
 
 // c13Run proves the statements (index -> list) on a fresh credential and applies the oracle.
 func c13Run(kp *vfk.KeyPair, attrs []*big.Int, stmts map[int][]*c13Stmt, ctx, nonce *big.Int) (sig, what string) {
+	return c13RunD(kp, attrs, stmts, nil, ctx, nonce)
+}
+
+// c13RunD: as c13Run, with a set of disclosed attribute indices (attributes without statements)
+func c13RunD(kp *vfk.KeyPair, attrs []*big.Int, stmts map[int][]*c13Stmt, disclose []int, ctx, nonce *big.Int) (sig, what string) {
 	cred, err := issueDirect(kp, bi(987654321987), attrs)
 	if err != nil {
 		return "issue-error", err.Error()
@@ -112,8 +117,11 @@ func c13Run(kp *vfk.KeyPair, attrs []*big.Int, stmts map[int][]*c13Stmt, ctx, no
 			desc += fmt.Sprintf("attr%d: %s; ", idx, s)
 		}
 	}
+	if len(disclose) > 0 {
+		desc += fmt.Sprintf("disclosed=%v of %d attributes; ", disclose, len(attrs))
+	}
 	var proof *ProofD
-	if ps := vfh.Guard(func() { proof, err = cred.CreateDisclosureProof(nil, rs, false, ctx, nonce) }); ps != "" {
+	if ps := vfh.Guard(func() { proof, err = cred.CreateDisclosureProof(disclose, rs, false, ctx, nonce) }); ps != "" {
 		return ps, desc
 	}
 	if err != nil {
@@ -248,6 +256,15 @@ func TestVF_C13_Random(t *testing.T) {
 		lm := kp.Pk.Params.Lm
 		nattr := rapid.IntRange(1, 2).Draw(rt, "nattr")
 		attrs := []*big.Int{bi(3)}
+		// attributes without statements in front, some of them disclosed: the statements then sit on
+		// indices that are larger than the number of hidden attributes
+		var disclose []int
+		for f := rapid.IntRange(0, 4).Draw(rt, "fillers"); f > 0; f-- {
+			attrs = append(attrs, bi(int64(100+f)))
+			if rapid.IntRange(0, 3).Draw(rt, "discloseFiller") != 0 {
+				disclose = append(disclose, len(attrs)-1)
+			}
+		}
 		stmts := map[int][]*c13Stmt{}
 		fp := kp.Name
 		total := 0
@@ -289,7 +306,17 @@ func TestVF_C13_Random(t *testing.T) {
 		}
 		ctx := bi(int64(rapid.IntRange(1, 1<<30).Draw(rt, "ctx")))
 		nonce := bi(int64(rapid.IntRange(1, 1<<30).Draw(rt, "nonce")))
-		sig, what := c13Run(kp, attrs[1:], stmts, ctx, nonce)
+		sig, what := c13RunD(kp, attrs[1:], stmts, disclose, ctx, nonce)
+		maxIdx := 0
+		for idx := range stmts {
+			if idx > maxIdx {
+				maxIdx = idx
+			}
+		}
+		if maxIdx >= len(attrs)-len(disclose) {
+			rec.Class("statement-index-above-number-of-hidden-attributes", 1)
+		}
+		fp += fmt.Sprintf("|D=%v/%d", disclose, len(attrs))
 		rec.Case(fmt.Sprintf("random/statements=%d/bits=%d", total, kp.Bits), true, fp)
 		rec.Sample(func() any { return map[string]any{"key": kp.Name, "statements": what} })
 		if sig != "" {
